@@ -180,7 +180,7 @@ pub fn judge(d: &Decl, c: &LineCase, reply: &Value) -> Result<Option<Expect>, (S
 fn run_shard(ctx: &ShardCtx) {
     let set = declcommon::worker_set("C09", ctx);
     let servers = Servers::new();
-    let lines_per_decl = ctx.tier.pick(400u64, 1500u64);
+    let lines_per_decl = ctx.tier.pick(1500u64, 3000u64);
     let mut gi = 0u64;
     for (bin, decls) in &set.crates {
         for d in decls {
